@@ -250,7 +250,7 @@ pub fn gen_cfg(t: &mut Tape, profile: Profile) -> RunCfg {
         Profile::Twin => {}
     }
     // CONNECT must be encodable at least on the first connection for the run to be interesting
-    let id_len = c.client_id.len();
+    let id_len = c.client_id.len().max(12); // the broker may assign "assigned-N"
     let will_len = c.will.as_ref().map_or(0, |w| w.topic.len() + w.payload.len() + 40);
     let auth_len = c.auth.as_ref().map_or(0, |a| a.0.len() + a.1.len() + 4);
     let need = 40 + id_len + will_len + auth_len;
@@ -377,19 +377,22 @@ fn run_connection(conn: &mut Conn<'_, '_>, steps_left: &mut u32) -> ConnEnd {
                 let r = do_publish(conn, &spec);
                 // A cancelled QoS 0 publish is documented as not cancel-safe: the application
                 // must not keep using the connection.
-                let eff0 = with(|w| w.reqs.last().map(|r| r.qos == 0).unwrap_or(false));
-                if r == Res::Cancelled && eff0 {
-                    with(|w| w.probe("qos0_cancelled_then_dropped"));
-                    return ConnEnd::Drop;
-                }
                 res = Some(r);
             }
             Step::Sub => {
                 let spec = with(gen_subscribe);
+                let size = 8 + crate::codec::props_len(&spec.props) + spec.filters.iter().map(|f| f.filter.len() + 3).sum::<usize>();
+                if !with(|w| guard_room(w, size)) {
+                    continue;
+                }
                 res = Some(do_subscribe(conn, &spec));
             }
             Step::Unsub => {
                 let spec = with(gen_unsubscribe);
+                let size = 8 + crate::codec::props_len(&spec.props) + spec.filters.iter().map(|f| f.len() + 2).sum::<usize>();
+                if !with(|w| guard_room(w, size)) {
+                    continue;
+                }
                 res = Some(do_unsubscribe(conn, &spec));
             }
             Step::Disconnect => {
@@ -436,6 +439,12 @@ fn run_connection(conn: &mut Conn<'_, '_>, steps_left: &mut u32) -> ConnEnd {
                 res = Some(crate::invalid::invalid_probe(conn));
             }
         }
+        // A cancelled QoS 0 publish is documented as not cancel-safe: the application must not
+        // keep using the connection.
+        if with(|w| std::mem::replace(&mut w.qos0_cancelled, false)) {
+            with(|w| w.probe("qos0_cancelled_then_dropped"));
+            return ConnEnd::Drop;
+        }
         let live = conn.is_connected();
         if let Some(r) = &res {
             let fatal = r.is_fatal() || (was_disconnect && !matches!(r, Res::InvalidRequest | Res::PacketTooLarge | Res::BufferTooSmall));
@@ -471,6 +480,17 @@ fn benign_drain(conn: &mut Conn<'_, '_>) -> bool {
     let (p, moved0, limit_bytes) = with(|w| {
         w.benign = true;
         let cur = w.cur;
+        // the broker becomes prompt: everything still under way to this connection arrives now,
+        // whatever was addressed to dead connections is gone
+        let evs = std::mem::take(&mut w.events);
+        for ((_, seq), ev) in evs {
+            let keep = match &ev {
+                world::Event::Deliver { conn, .. } | world::Event::Close { conn } => *conn == cur,
+            };
+            if keep {
+                w.events.insert((clock::now(), seq), ev);
+            }
+        }
         broker::release_withheld(w, cur);
         let ep = w.epoch;
         let pending = w.reqs.iter().filter(|r| r.epoch == ep && !r.invalidated && r.accept != Accept::NotAccepted && r.qos > 0 && !matches!(r.phase, Phase::Done(_))).count();
@@ -581,6 +601,10 @@ fn usability_probe(conn: &mut Conn<'_, '_>) {
             payload_fails: false,
         };
         let spec = PubSpec { topic: format!("t{}", spec.tag), ..spec };
+        let (mps, maxq0) = with(|w| (w.conns[w.cur].max_packet_size, w.cfg.downgrade && w.conns[w.cur].max_qos_present && w.conns[w.cur].max_qos == 0));
+        if mps.is_some_and(|m| m < 32) || maxq0 {
+            return;
+        }
         let r = do_publish(conn, &spec);
         if r != Res::OkOp {
             with(|w| {
@@ -640,6 +664,13 @@ fn final_phase(session: &mut Session<'_>, mut drained: bool) {
         }
         match do_connect(session, false) {
             ConnectOutcome::Failed(r) => {
+                // only configurations in which a CONNECT could be encoded at all are in scope
+                let ever_connected = with(|w| w.conns.iter().any(|c| !c.packets.is_empty()));
+                let too_small_anyway = with(|w| w.cfg.tx_len < connect_need(w));
+                if (!ever_connected || too_small_anyway) && r == Res::BufferTooSmall {
+                    with(|w| w.probe("config_cannot_encode_connect"));
+                    return;
+                }
                 with(|w| {
                     let arena = if w.reqs.iter().any(|r| !r.invalidated && r.accept != Accept::NotAccepted && r.qos > 0 && !matches!(r.phase, Phase::Done(_))) {
                         "retained-data"
